@@ -389,15 +389,11 @@ func (v *view) min(filter *Row, bitDepth uint) (min int64, count uint64, err err
 			continue
 		}
 
-		if !minHasValue {
-			min = fmin
+		// The count is the number of columns holding the overall min.
+		if !minHasValue || fmin < min {
+			min, count = fmin, fcount
 			minHasValue = true
-			count += fcount
-			continue
-		}
-
-		if fmin < min {
-			min = fmin
+		} else if fmin == min {
 			count += fcount
 		}
 	}
@@ -406,13 +402,22 @@ func (v *view) min(filter *Row, bitDepth uint) (min int64, count uint64, err err
 
 // max returns the max and count of a field.
 func (v *view) max(filter *Row, bitDepth uint) (max int64, count uint64, err error) {
+	var maxHasValue bool
 	for _, f := range v.allFragments() {
 		fmax, fcount, err := f.max(filter, bitDepth)
 		if err != nil {
 			return max, count, err
 		}
-		if fcount > 0 && fmax > max {
-			max = fmax
+		// Don't consider a max based on zero columns.
+		if fcount == 0 {
+			continue
+		}
+
+		// The count is the number of columns holding the overall max.
+		if !maxHasValue || fmax > max {
+			max, count = fmax, fcount
+			maxHasValue = true
+		} else if fmax == max {
 			count += fcount
 		}
 	}
